@@ -212,6 +212,12 @@ def run_case(case):
             mech = "normal_step_zero_from_infeasible_origin"
         elif res.status in (5, 6) and dev <= TAU[fam]:
             mech = "budget_exhausted_at_accurate_point"
+        elif (res.status == 0 and dev <= TAU[fam] and zero_normal["n"] > 0
+              and tv is not None and tol < tv <= 1e-6):
+            # accurate point, but a linear residual of 1e-8..1e-6 was never
+            # removed: the normal solver returned the zero step from a
+            # (slightly) infeasible centre
+            mech = "residual_below_normal_step_floor"
         bad = []
         if res.status != 0:
             bad.append(f"status {res.status}")
